@@ -22,7 +22,7 @@ CFG = {
                   "against the unguarded containers), the Go harness. Not covered by any theorem: data-race freedom in the sense of the Go "
                   "memory model (race detector only, sampled schedules), deadlock freedom beyond 'every method releases what it acquires and "
                   "never re-acquires' (watchdog), absence of panics (sampled). A method that is a sequence of separately locked calls (per variadic element) is rejected by check_tables (Classify.compound_known is empty; zset.Set.Add/Remove/Contains were of that shape and are repaired by fix 0040). Excluded as the property says: ToMetaSlice, ToMetaMap, GetByRange, callbacks that "
-                  "re-enter the instance. (De)serialisation methods are exercised with valid documents (produced by the type itself), invalid ones (truncated, wrong element type, garbage) and empty ones; after every failing call the instance must still answer (a call blocking > 4 s in a run without concurrency = lock left held on an error path). Weakened on purpose: a panic under concurrency is reported only if the same operation mix issued by one goroutine never panics (failed loads leave arraylist-backed containers and bmap in an inconsistent state, a functional defect that then panics everywhere); document-loading methods of containers that decode through a Go map are left out of the serial-outcome scenarios (run-dependent tree shapes). bcache instances hold expired-but-still-stored entries (1ns TTL, sweeper off) under the even keys; same-key scenarios (every sampled pair of methods on ONE key/index, also negative ones) and, for every offending entry of the table, targeted same-key/negative-argument/random scenarios against each writer are judged by the serial-outcome oracle. A Safe wrapper that disagrees with the container it wraps on a sequential trace is a violation (kind 2: the wrapped method of the same name is the sequential meaning of a wrapper call). Not exercised: lscq.QueueSafe methods that are unimplemented stubs.",
+                  "re-enter the instance. (De)serialisation methods are exercised with valid documents (produced by the type itself), invalid ones (truncated, wrong element type, garbage) and empty ones; after every failing call the instance must still answer (a call blocking > 4 s in a run without concurrency = lock left held on an error path). Weakened on purpose: a panic under concurrency is reported only if the same operation mix issued by one goroutine never panics (failed loads leave arraylist-backed containers and bmap in an inconsistent state, a functional defect that then panics everywhere); document-loading methods of containers that decode through a Go map are left out of the serial-outcome scenarios (run-dependent tree shapes). bcache instances hold expired-but-still-stored entries (1ns TTL, sweeper off) under the even keys; same-key scenarios (every sampled pair of methods on ONE key/index, also negative ones) and, for every offending entry of the table, targeted same-key/negative-argument/random scenarios against each writer are judged by the serial-outcome oracle. A Safe wrapper that disagrees with the container it wraps on a sequential trace is a violation (kind 2: the wrapped method of the same name is the sequential meaning of a wrapper call). Results handed out by methods must be private: in the stress every caller keeps the slices/maps it was returned, keeps reading and sometimes writes them while others mutate the instance (race detector), and sequentially a retained result must survive later mutations and writes into it must not reach the instance, in the states where a no-copy fast path could apply (empty, one element, exactly full after a load, after shrinking removals): CRetained, kind 2. Nested acquisition: methods accepting another instance of their own type are called with the receiver itself (one writer queued) and with a pair in both orders (a writer queued on each; separate child whose only verdict is the watchdog, because bmap's *ByBMap methods access the ARGUMENT's raw map without its lock - the known unrepaired note - and race with the argument's writers by construction); the translator flags 'calls a locking method of its argument while holding its own lock' as Irregular. Not exercised: lscq.QueueSafe methods that are unimplemented stubs.",
     "harness": "c11",
     "gen": [
         "cd tools/gen_c11 && go run . -out ../../coq/theories/C11/Gen/LockTables.v -classify ../../coq/theories/C11/Classify.v",
